@@ -128,7 +128,7 @@ CLAIMED = {
                 "complex rational functions is decided by normalisation + z3. Also: array vs one-frequency-at-a-time evaluation, the three "
                 "dispatch branches (element, container, connection), Circuit(Series|Parallel|Element|list); construction routes (objects vs "
                 "CircuitBuilder vs serialise/parse) for a general transmission line with 5 sub-circuit shapes at a symbolic frequency. Exhaustive "
-                "for every nest of <=3 (4) leaves, depth <=2 (3), 2 (3) frequencies.",
+                "for every nest of <=3 leaves, depth <=2, 2 (3) frequencies.",
         "design_ref": "DESIGN.md section 4, C01",
         "note": "leaves opaque (element formulas are C02); a branch is open at all frequencies or none (mixed: result, if any, must obey the law; "
                 "only InfiniteImpedance may be raised); admittances that cancel exactly are cut away; floats as reals",
